@@ -141,7 +141,13 @@ func getEnv() *sys.Env {
 func runCase(c Case) observed {
 	e := getEnv()
 	e.TC.ResetState()
-	tm.InitTm(tm.TmConfig{CommitRetryCount: c.Retries, RollbackRetryCount: c.Retries, DefaultGlobalTransactionTimeout: 60 * time.Second})
+	// the retry setting under test applies to the decision this case expects; the other decision's setting is
+	// deliberately different, so that using the wrong one is visible
+	cr, rr := c.Retries, c.Retries+2
+	if c.Callback != "nil" {
+		cr, rr = c.Retries+2, c.Retries
+	}
+	tm.InitTm(tm.TmConfig{CommitRetryCount: cr, RollbackRetryCount: rr, DefaultGlobalTransactionTimeout: 60 * time.Second})
 	drops := 0
 	vtime.SetVirtual(func(d time.Duration) bool {
 		if d >= 20*time.Second { // the RPC timeout: expires only for a request the coordinator dropped
@@ -277,6 +283,14 @@ func check(c Case, ob observed) (clause, detail string) {
 	}
 	if c.Retries > 0 && len(reqs) > c.Retries {
 		return "too-many-retries", d("%d requests with a retry setting of %d: %v", len(reqs), c.Retries, reqs)
+	}
+	// the configured number of attempts is actually available: as long as every answer is a transport failure and the
+	// context is alive, the initiator keeps trying up to the setting
+	if c.Retries > 0 && !cancelled && c.Begin == "ok" && len(reqs) > 0 && len(reqs) < c.Retries && len(reqs) <= len(c.Second) {
+		last := reqs[len(reqs)-1]
+		if last == "transport" || last == "drop" {
+			return "gave-up-early", d("%d requests although %d attempts are configured and the last answer was a transport failure: %v", len(reqs), c.Retries, reqs)
+		}
 	}
 	// truthfulness of the return value
 	acked := false
